@@ -3,6 +3,8 @@
 From Coq Require Import ZArith NArith List Bool Arith.
 Import ListNotations.
 From PV Require Import Base.PySeq Base.Rx Base.RxFacts Expect.Model Expect.Spec Expect.Refine Expect.SpecFacts Expect.Wrappers Expect.WrappersFacts.
+From PV Require Transport.Model Transport.Proofs.
+From PV Require Import Compose.Model Compose.Proofs.
 
 (** For every history of expect-family calls (any searcher kind, patterns, window and timeout-0 flag per
     call) from any reachable state over any list of transport events: the text handed back so far - each
@@ -125,6 +127,38 @@ Theorem C01_engine_literal : forall s t pos a b, rx_search (Lit s) t pos = Some 
   b = a + length s /\ firstn (b - a) (skipn a t) = s.
 Proof. exact rx_search_lit. Qed.
 Print Assumptions C01_engine_literal.
+
+(** END TO END (Compose/): the Expecter driven by the read_nonblocking of a transport over the kernel-endpoint model, reads made
+    one at a time as long as the call goes on.  For every transport whose read respects C06 (proved for the pty, fd and socket
+    reads: premises discharged below), every schedule of the peer, every history of calls: what the calls hand back, then what
+    is pending in the object, then what the kernel still holds, is what was pending, what the kernel held, and what the peer
+    wrote meanwhile ([w]) - nothing lost, duplicated or reordered between the kernel and the caller. *)
+Theorem C01_end_to_end_histories :
+  forall (rx : Type) (re_search : rx -> text -> nat -> option (nat * nat))
+         (rd : T.kern -> T.sched -> nat -> T.res * T.kern * T.sched) (maxread : nat),
+  (forall r t p a b, re_search r t p = Some (a, b) -> a <= b) ->
+  (forall size k s, TP.ok_from size k [] (rd k s size)) ->
+  forall fuel cs s k sc rs s' k' sc', Forall (wf_call rx) cs -> Inv s ->
+  calls_over rx re_search rd maxread fuel cs s k sc = Some (rs, s', k', sc') ->
+  Inv s' /\ exists w, flat_map handed rs ++ pend s' ++ T.kbuf k' = pend s ++ T.kbuf k ++ w.
+Proof. exact calls_over_conserve. Qed.
+Print Assumptions C01_end_to_end_histories.
+
+(** the lazily driven call IS the list-driven Expecter (to which all of C01-C04 apply) on exactly the reads that were made *)
+Theorem C01_end_to_end_is_the_expecter :
+  forall (rx : Type) (re_search : rx -> text -> nat -> option (nat * nat))
+         (rd : T.kern -> T.sched -> nat -> T.res * T.kern * T.sched) (maxread : nat) c t0 fuel s k sc r s' k' sc',
+  expect_over rx re_search rd maxread fuel c t0 s k sc = Done r s' k' sc' ->
+  exists n rs, TP.reads rd (repeat maxread n) k sc = (rs, k', sc') /\ expect_loop rx re_search c t0 s (map ev_of rs) = (r, s', []).
+Proof. exact expect_over_is_expect_loop. Qed.
+Print Assumptions C01_end_to_end_is_the_expecter.
+
+Theorem C01_transports_qualify : forall t0,
+  (forall size k s, TP.ok_from size k [] (T.pty_read k s size t0)) /\
+  (forall size k s, TP.ok_from size k [] (T.fd_read k s size)) /\
+  (forall size k s, TP.ok_from size k [] (T.sock_read k s size)).
+Proof. exact (fun t0 => conj (pty_rd_ok t0) (conj fd_rd_ok sock_rd_ok)). Qed.
+Print Assumptions C01_transports_qualify.
 
 (** non-vacuity: a zero-width, end-anchored pattern on pending text "abc" keeps the text in before *)
 Example C01_end_anchor :
